@@ -83,12 +83,6 @@ def check(ck, view):
     usalt = ck.prog.const_str("unspendable_account::UNSPENDABLE_SALT")
     ck.require(nsalt != usalt and len(nsalt) == 8 and len(usalt) == 8, "ITEM", "salts-distinct", "nullifier and address salts are distinct 8-byte constants (%r, %r)" % (nsalt, usalt))
 
-    # 1. one secret
-    ns, us = view.role("nullifier.secret"), view.role("unspendable_account.secret")
-    hit = [e for e in view.effects if e.name == "cb.connect_hashes" and {P.norm(a) for a in circ.cb_operands(e)[:2]} == {ns, us}]
-    if ck.require(len(hit) >= 1, "TERM", "secret-shared", "connect_hashes(nullifier.secret, unspendable_account.secret)", hit[0].loc if hit else None):
-        circ.require_uncond(ck, hit[0], "UNCOND", "secret-shared/uncond", "the secret-sharing connect")
-
     # 2./3. element-wise connects over the zip of both arrays
     def zipped_connect(role_a, role_b, key):
         ra, rb = view.role(role_a), view.role(role_b)
@@ -110,6 +104,8 @@ def check(ck, view):
                 return True
         return ck.fail("TERM", key, "no element-wise connect between %s and %s" % (role_a, role_b))
 
+    # 1. one secret (connect_hashes is four element-wise connects)
+    zipped_connect("nullifier.secret", "unspendable_account.secret", "secret-shared")
     zipped_connect("nullifier.transfer_count", "zk_merkle_proof.leaf.transfer_count", "count-shared")
     zipped_connect("unspendable_account.account_id", "zk_merkle_proof.leaf.to_account.elements", "address-is-recipient")
 
